@@ -54,7 +54,7 @@ CHECKS = {
    category="model_checking", design_ref="DESIGN.md §5 C01",
    technique="bounded-exhaustive enumeration of values × builder programs by deviation bound (default route, every single and every pair of route deviations, Reset-reuse) executed on the real builders, read back by a complete observer; all-pairs DeepEqual/Copy agreement across implementations",
    text="Every value of the bounded universe is assembled through every program within deviation bound 2 (entry shortcut vs key/value assembly with string or node keys, scalar assign vs AssignNode of basic/kind-specific/foreign nodes, size hints -1/0/exact+2, fresh vs Reset-reused builder); the result must read back as exactly that value with all access forms agreeing and wrong-kind accessors erroring; DeepEqual and Copy must agree with abstract equality on all pairs of a 200+-value set across implementation pairs.",
-   note="Generic implementations (basicnode Any/kind prototypes, foreign refnode as source), plus every single route deviation (incl. AssignNode of a sub-node of an earlier instance of the same engine) on bindnode builders of the quick schema families at both levels; views of typed nodes and generated code are C08. uint64>MaxInt64 is outside DeepEqual/Copy."),
+   note="Generic implementations (basicnode Any/kind prototypes, foreign refnode as source), plus every single route deviation (incl. AssignNode of a sub-node of an earlier instance of the same engine) on bindnode builders of the quick schema families at both levels and, through a worker of the typed binary (built from the working tree's generator, as for C08), the same deviations and builder-reuse histories on generated code; the views of typed nodes against the schema semantics are C08. Known findings: a bindnode prototype bound to the type Any itself returns an unreadable node (6 signatures); two generator defects shared with C08. uint64>MaxInt64 is outside DeepEqual/Copy."),
  "C11": dict(
    category="model_checking", design_ref="DESIGN.md §5 C11", engine="bfs",
    technique="exhaustive enumeration of post-build operation sequences (depth 2/3 over 17 operations) on nodes from ~100 producer classes, with a complete-snapshot invariant re-evaluated twice after every step on every node sharing structure",
@@ -64,7 +64,7 @@ CHECKS = {
    category="model_checking", design_ref="DESIGN.md §5 C12", engine="bfs",
    technique="explicit-state breadth-first search over assembler call sequences (≤10/14 calls, nesting ≤2/3) with the contract's state machine as reference model; every transition replayed on a fresh real builder; repeated-key and wrong-kind rejections injected at every position through all three key routes",
    text="All legal call sequences within the bound are explored; each call must succeed, each injected repeated key must return ErrRepeatedMapKey from the call that supplied it and leave the assembler usable (all continuations explored, sticky rejection flag in the state), wrong kinds must error, and Build must equal the model value.",
-   note="Reference model = contract state machine in mc/props/c12. Engines: basicnode Any/Map/List, and bindnode + generated code (map-shaped assemblers of every family root at both levels; values incl. containers given by Assign, by AssignNode of another implementation and of the own type). States are merged by the model; one pass per key route chooses the representing path of each state, merged-away paths are completed and their product compared (DESIGN.md §7 items 16, 23): mixed-route pasts within one state are represented by those probes only. Misuse orders are not generated."),
+   note="Reference model = contract state machine in mc/props/c12. Engines: basicnode Any/Map/List, and bindnode + generated code (map-shaped assemblers of every family root at both levels; values of any field/value type — the richest member of V(T) — given by Assign, by AssignNode of another implementation and of the own type; the same search on the assembler of the second element of a list or map after a complete first element; types with more than 4 keys in the thorough tier only). States are merged by the model; one pass per key route chooses the representing path of each state, merged-away paths are completed and their product compared (DESIGN.md §7 items 16, 23): mixed-route pasts within one state are represented by those probes only. Misuse orders are not generated."),
  "C17": dict(
    category="model_checking", design_ref="DESIGN.md §5 C17", engine="bfs",
    technique="explicit-state search over put/get histories on the real stores (state = keys stored [+ last operation], to fixpoint) for pairs of adversarial keys against a Go map, with every filesystem path of fsstore logged through an import-rewritten os shim and checked for containment",
@@ -104,7 +104,7 @@ CHECKS = {
    category="model_checking", design_ref="DESIGN.md §5 C10",
    technique="exhaustive enumeration of short inputs over structural alphabets for every decoder under a lattice of configurations (depth limit × allocation budget × strict/relaxed × prealloc cap × links × stream mode × target prototype), depth bombs through a depth-observing assembler proxy, systematic hostile claimed lengths in an address-space-limited single-goroutine worker with allocation accounting, exhaustive small selector-spec trees compiled and walked, and every short path string",
    text="Every input of the bounded spaces must yield a result or an error without panicking, within the watchdog and the address-space limit; observed nesting never exceeds MaxDepth and the limit is exact; TotalAlloc stays below 512·(budget+len)+256 KiB whatever length a head claims; every selector that compiles is walked to completion over every small graph; path parsing never panics.",
-   note="Typed assemblers as decode targets are exercised by C09's dag-cbor route. The allocation bound constants are generous (observed worst ratio ≈ 0.02): they catch claimed-length-driven allocation, not small constant-factor changes."),
+   note="Typed decode targets: the reflection binding's type-level and representation-level builders of every family root type, fed C09's input trees (conforming and every local mutation) and every proper prefix of the conforming encodings through all four structured decoders; generated builders as decode targets are exercised by C09/C13's dag-cbor route. The allocation bound constants are generous (observed worst ratio ≈ 0.02): they catch claimed-length-driven allocation, not small constant-factor changes."),
 }
 
 NOT_YET = "check not built yet in this round (planned in DESIGN.md §5; will be claimed when its explorer exists)"
